@@ -258,6 +258,7 @@ class Upgrade:
         self.env = {}          # dialect-dependent type variables
         self.utc_variant = None
         self.backfill_pos = 0
+        self.backfill = None
         self.got_pins = {}
 
     def what(self, node=None):
@@ -484,10 +485,10 @@ class Upgrade:
             fail(f"{w}: expected try/finally session.close()", tr)
         body = [src(x) for x in tr.body]
         if body == ["backfill_values_for_lonely_tasks(session)"]:
-            for fn in ("backfill_values_for_lonely_tasks", "get_lonely_tasks"):
-                self.pin_check(f"{self.rev}.{fn}", find_func(self.mod, fn))
+            lt, wm = self.backfill_variant()
             scripts = self.known_scripts()
-            self.ops.append((guard, "BackfillTaskValues [" + "; ".join(q(x) for x in scripts) + "]"))
+            self.backfill = (lt, wm)
+            self.ops.append((guard, f"BackfillTaskValues {lt} {wm} [" + "; ".join(q(x) for x in scripts) + "]"))
             return
         # stub executions: query + loop + commit, with the local Job/Execution classes
         self.pin_check(f"{self.rev}.stub_try", tr)
@@ -496,6 +497,46 @@ class Upgrade:
         if len(sqls) != 1 or norm_sql(const_str(sqls[0].args[0], w)) != SQL_STUB_QUERY:
             fail(f"{w}: the root-jobs-without-execution query changed", tr)
         self.ops.append((guard, "StubExecutions"))
+
+    # The two variant sites of the companion-value back-fill (Model/Migrate.v lonely_test, write_mode).
+    LONELY_ANY = ["return session.query(db.Task).filter_by(value=None).all()"]
+    LONELY_TYPED = [
+        "task_values = session.query(db.Value.value_hash).filter(db.Value.type == Task.type_name).subquery()",
+        "return session.query(db.Task).outerjoin(task_values, task_values.c.value_hash == db.Task.hash)"
+        ".filter(task_values.c.value_hash.is_(None)).all()"]
+
+    def backfill_variant(self):
+        w = f"{self.rev}: companion-value back-fill"
+        # (1) which tasks are lonely
+        fn = find_func(self.mod, "get_lonely_tasks")
+        if [a.arg for a in fn.args.args] != ["session"] or fn.decorator_list:
+            fail(f"{w}: get_lonely_tasks signature", fn)
+        body = [src(x) for x in body_nodoc(fn)]
+        if body == self.LONELY_ANY:
+            lt = "AnyValue"
+        elif body == self.LONELY_TYPED:
+            lt = "TypedValue"
+        else:
+            fail(f"{w}: get_lonely_tasks is neither `filter_by(value=None)` nor the anti-join against Task-typed values", fn)
+        # (2) how the rows are written: the function with the write call and the commit test normalised, pinned
+        import copy
+        fn = copy.deepcopy(find_func(self.mod, "backfill_values_for_lonely_tasks"))
+        writes = [n for n in ast.walk(fn) if isinstance(n, ast.Call) and src(n.func) in ("session.add", "session.merge")]
+        if len(writes) != 1:
+            fail(f"{w}: expected exactly one session.add / session.merge call", fn)
+        mode = src(writes[0].func)
+        writes[0].func = ast.Name(id="WRITE", ctx=ast.Load())
+        last = fn.body[-1]
+        if not isinstance(last, ast.If) or last.orelse or [src(x) for x in last.body] != ["session.commit()"]:
+            fail(f"{w}: expected a final `if ...: session.commit()`", fn)
+        test = src(last.test)
+        if test not in ("session.new", "session.new or session.dirty"):
+            fail(f"{w}: unrecognised commit condition {test!r}", last)
+        last.test = ast.Name(id="COMMIT_TEST", ctx=ast.Load())
+        if mode == "session.merge" and test == "session.new":
+            fail(f"{w}: session.merge with a commit on session.new only (merged rows would be rolled back): not modelled", last)
+        self.pin_check(f"{self.rev}.backfill_values_for_lonely_tasks", fn)
+        return lt, ("AddRow" if mode == "session.add" else "MergeRow")
 
     def known_scripts(self):
         fn = find_func(self.mod, "guess_is_script")
@@ -580,6 +621,7 @@ def translate(pins: dict | None = None):
     got = {}
     migs = {}
     variant = None
+    backfill = None
     for p in files:
         mod = load(f"{VERSIONS_DIR}/{p.name}")
         rev, down = module_header(mod, p.name)
@@ -594,6 +636,8 @@ def translate(pins: dict | None = None):
             fail(f"{rev}: incomplete execution_id back-fill sequence ({up.backfill_pos} of {len(BACKFILL_SEQ)} statements)")
         if up.utc_variant:
             variant = up.utc_variant
+        if up.backfill:
+            backfill = up.backfill
         got.update(up.got_pins)
         migs[rev] = (down, up.ops)
     # linear chain
@@ -616,6 +660,12 @@ def translate(pins: dict | None = None):
         fail(f"REDUN_DB_VERSIONS {[v[0] for v in vs]} differs from the alembic chain {order}")
     if variant is None:
         fail("no migration converts job times to UTC on SQLite (unknown variant)")
+    if backfill is None:
+        fail("no migration back-fills the companion Task values (unknown variant)")
+    tv = find_assign(find_class(init_mod, "Task"), "value")      # filter_by(value=None) is this relationship
+    got["db.Task.value"] = pin(tv)
+    if pins is not None and pins.get("db.Task.value") != got["db.Task.value"]:
+        fail(f"db.Task.value: shape changed (pin {got['db.Task.value']}, expected {pins.get('db.Task.value')})", tv)
     for rel, cls, name in LIB_PINS:
         node = find_func(load(rel), name, cls)
         key = f"{Path(rel).stem if Path(rel).stem != '__init__' else 'db'}.{(cls + '.') if cls else ''}{name}"
@@ -641,10 +691,12 @@ def translate(pins: dict | None = None):
     v.append(f"Definition gen_vmin : Z * Z := ({vmin[0]}%Z, {vmin[1]}%Z).")
     v.append(f"Definition gen_vmax : Z * Z := ({vmax[0]}%Z, {vmax[1]}%Z).")
     v.append("")
-    v.append(f"(* The theorems of Props/C36.v are about [chain {variant}], [db_versions], [vmin], [vmax]; this is the tie. *)")
-    v.append(f"Lemma C36_tie : gen_chain = chain {variant} /\\ gen_versions = db_versions /\\ gen_vmin = vmin /\\ gen_vmax = vmax.")
+    lt, wm = backfill
+    v.append(f"(* The theorems of Props/C36.v are about [chain_gen AnyValue AddRow v] (= [chain v]), [db_versions], [vmin], [vmax];")
+    v.append(f"   this is the tie.  Other back-fill variants are modelled too (C36_backfill_typed_merge_refuted). *)")
+    v.append(f"Lemma C36_tie : gen_chain = chain_gen {lt} {wm} {variant} /\\ gen_versions = db_versions /\\ gen_vmin = vmin /\\ gen_vmax = vmax.")
     v.append("Proof. repeat split; vm_compute; reflexivity. Qed.")
-    return "\n".join(v) + "\n", got, {"variant": variant, "revisions": order, "versions": vs}
+    return "\n".join(v) + "\n", got, {"variant": variant, "backfill": backfill, "revisions": order, "versions": vs}
 
 
 if __name__ == "__main__":
